@@ -56,6 +56,15 @@ def generate_source_code(docstring, parsed):
     if not rules:
         raise Exception('Expected one or more grammar rules.')
 
+    # A grammar without a rule called "start" starts with its first rule. An
+    # ignored rule is not a candidate, and a derived grammar first looks for a
+    # start rule among its ancestors.
+    if start_rule is None and _inherited_start_name(parsed.extends) is None:
+        for rule in rules:
+            if not rule.is_ignored:
+                start_rule = rule
+                break
+
     visited_names = set()
     for rule in rules:
         if rule.name is not None and rule.name.startswith('_'):
@@ -136,14 +145,7 @@ def generate_source_code(docstring, parsed):
     if start_rule is not None:
         start_name = ex.implementation_name(start_rule.name)
     else:
-        start_name = None
-        ancestor = parsed.extends
-        while start_name is None and ancestor is not None:
-            for stmt in ancestor.body:
-                if hasattr(stmt, 'name') and stmt.name.lower() == 'start':
-                    start_name = f'_ctx.{ex.implementation_name(stmt.name)}'
-                    break
-            ancestor = ancestor.extends
+        start_name = _inherited_start_name(parsed.extends)
 
     if start_name is None:
         start_name = ex.implementation_name(rules[0].name)
@@ -270,6 +272,15 @@ def generate_source_code(docstring, parsed):
 class _Flags:
     def __init__(self, uses_context):
         self.uses_context = uses_context
+
+
+def _inherited_start_name(ancestor):
+    while ancestor is not None:
+        for stmt in ancestor.body:
+            if hasattr(stmt, 'name') and stmt.name.lower() == 'start':
+                return f'_ctx.{ex.implementation_name(stmt.name)}'
+        ancestor = ancestor.extends
+    return None
 
 
 def _assign_ids(rules):
